@@ -447,11 +447,25 @@ impl GroupConfig {
                 Overreplicated(self.rf_over())
             },
             root_paths: if self.isolate {
-                self.input_paths().collect()
+                self.input_paths().map(Self::normalize_root).collect()
             } else {
                 vec![]
             },
             group_by_id: !self.match_links,
+        }
+    }
+
+    /// Normalizes an input path the same way the directory walk does (symbolic links, `.` and
+    /// `..` resolved), so that it is a prefix of the paths reported for the files found under it,
+    /// however the user spelled it.
+    fn normalize_root(path: Path) -> Path {
+        if path.to_path_buf().is_file() {
+            match (path.parent(), path.file_name()) {
+                (Some(parent), Some(name)) => Arc::new(parent.canonicalize()).join(Path::from(name)),
+                _ => path,
+            }
+        } else {
+            path.canonicalize()
         }
     }
 
